@@ -30,8 +30,9 @@ Definition u_ok {X} (cmp : X -> X -> comparison) (z : list X) (N1 N2 : nat) (T :
   let w := twoU_of T u in
   exists p c, op = XFin p /\ oc = XFin c /\
     ((0 <= u /\ u < (1 # 2) + QN (N1 * N2)) -> Qabs (p - inject_Z (count_eq cmp z N1 w) / inject_Z tot) <= tol_prob) /\
-    ((u < 0 \/ (1 # 2) + QN (N1 * N2) <= u) -> Qabs p <= tol_prob) /\
-    Qabs (c - inject_Z (count_le cmp z N1 w) / inject_Z tot) <= tol_prob.
+    ((u < 0 \/ (1 # 2) + QN (N1 * N2) <= u) -> p == 0) /\
+    Qabs (c - inject_Z (count_le cmp z N1 w) / inject_Z tot) <= tol_prob /\
+    (u < 0 -> c == 0) /\ (QN (N1 * N2) <= u -> c == 1).
 
 (* the property's domain *)
 Definition tie_vector_ok (N1 N2 : nat) (tnil : bool) (T : list nat) : Prop :=
@@ -95,21 +96,42 @@ Qed.
 (* ====================== reading the comparator ====================== *)
 Definition u_pass (N1 N2 : nat) (T : list nat) (tbl cs : list Z) (tot : Z) (it : Q * xreal * xreal) : Prop :=
   let '(u, op, oc) := it in
-  xwithin tol_prob (XFin (fast_pmf N1 N2 T tbl tot u)) op = true /\
-  xwithin tol_prob (XFin (fast_cdf N1 N2 T cs tot u)) oc = true.
+  xwithin (tol_pmf_at N1 N2 u) (XFin (fast_pmf N1 N2 T tbl tot u)) op = true /\
+  xwithin (tol_cdf_at N1 N2 u) (XFin (fast_cdf N1 N2 T cs tot u)) oc = true.
 
 Lemma cmp_us_none N1 N2 T tbl cs tot : forall us i,
   cmp_us N1 N2 T tbl cs tot us i = None -> Forall (u_pass N1 N2 T tbl cs tot) us.
 Proof.
   induction us as [|[[u op] oc] rest IH]; intros i H; [constructor|].
   cbn [cmp_us] in H. cbv zeta in H.
-  destruct (xwithin tol_prob (XFin (fast_pmf N1 N2 T tbl tot u)) op) eqn:P; cbn [negb] in H; [|discriminate H].
-  destruct (xwithin tol_prob (XFin (fast_cdf N1 N2 T cs tot u)) oc) eqn:Q; cbn [negb] in H; [|discriminate H].
+  destruct (xwithin (tol_pmf_at N1 N2 u) (XFin (fast_pmf N1 N2 T tbl tot u)) op) eqn:P; cbn [negb] in H; [|discriminate H].
+  destruct (xwithin (tol_cdf_at N1 N2 u) (XFin (fast_cdf N1 N2 T cs tot u)) oc) eqn:Q; cbn [negb] in H; [|discriminate H].
   constructor; [split; assumption|exact (IH _ H)].
 Qed.
 
-Lemma Qabs_minus0 p tol : Qabs (p - 0) <= tol -> Qabs p <= tol.
-Proof. intro H. assert (E : p - 0 == p) by ring. now rewrite E in H. Qed.
+Lemma tol_prob_nonneg : 0 <= tol_prob.
+Proof. unfold tol_prob, Qle. cbn. lia. Qed.
+Lemma tol_pmf_at_inside N1 N2 u : 0 <= u -> u < (1 # 2) + QN (N1 * N2) -> tol_pmf_at N1 N2 u = tol_prob.
+Proof.
+  intros H0 H1. unfold tol_pmf_at. apply Qltb_false in H0. rewrite H0. cbn [orb].
+  assert (E : Qleb ((1 # 2) + QN (N1 * N2)) u = false) by (apply Qleb_false; exact H1). rewrite E. reflexivity.
+Qed.
+Lemma tol_pmf_at_outside N1 N2 u : u < 0 \/ (1 # 2) + QN (N1 * N2) <= u -> tol_pmf_at N1 N2 u = 0.
+Proof.
+  intros [H|H]; unfold tol_pmf_at.
+  - apply Qltb_true in H. rewrite H. reflexivity.
+  - apply Qleb_true in H. rewrite H, orb_true_r. reflexivity.
+Qed.
+Lemma tol_cdf_at_le N1 N2 u : tol_cdf_at N1 N2 u <= tol_prob.
+Proof. unfold tol_cdf_at. destruct (_ || _); [apply tol_prob_nonneg|apply Qle_refl]. Qed.
+Lemma tol_cdf_at_outside N1 N2 u : u < 0 \/ QN (N1 * N2) <= u -> tol_cdf_at N1 N2 u = 0.
+Proof.
+  intros [H|H]; unfold tol_cdf_at.
+  - apply Qltb_true in H. rewrite H. reflexivity.
+  - apply Qleb_true in H. rewrite H, orb_true_r. reflexivity.
+Qed.
+Lemma Qabs_le0_eq a b : Qabs (a - b) <= 0 -> a == b.
+Proof. intro H. apply Qabs_le0 in H. lra. Qed.
 
 Section Point.
 Context {X : Type} (cmp : X -> X -> comparison) (z : list X).
@@ -166,10 +188,16 @@ Lemma u_pass_ok it : u_pass N1 N2 T tbl cs tot it -> u_ok cmp z N1 N2 T it.
 Proof.
   destruct it as [[u op] oc]. cbn. intros [P Q].
   apply xwithin_fin in P. destruct P as (p & -> & P). apply xwithin_fin in Q. destruct Q as (c & -> & Q).
-  exists p, c. split; [reflexivity|]. split; [reflexivity|]. split; [|split].
-  - intros [H0 H1]. rewrite (fast_pmf_inside u H0 H1) in P. exact P.
-  - intros H. rewrite (fast_pmf_outside u H) in P. apply Qabs_minus0. exact P.
-  - rewrite fast_cdf_count in Q. exact Q.
+  exists p, c. split; [reflexivity|]. split; [reflexivity|]. split; [|split; [|split; [|split]]].
+  - intros [H0 H1]. rewrite (fast_pmf_inside u H0 H1), (tol_pmf_at_inside N1 N2 u H0 H1) in P. exact P.
+  - intros H. rewrite (fast_pmf_outside u H), (tol_pmf_at_outside N1 N2 u H) in P. apply Qabs_le0_eq. exact P.
+  - rewrite fast_cdf_count in Q. eapply Qle_trans; [exact Q|apply tol_cdf_at_le].
+  - intros H. rewrite (tol_cdf_at_outside N1 N2 u (or_introl H)) in Q. apply Qabs_le0_eq in Q. rewrite Q.
+    unfold fast_cdf. apply Qltb_true in H. rewrite H. reflexivity.
+  - intros H. rewrite (tol_cdf_at_outside N1 N2 u (or_intror H)) in Q. apply Qabs_le0_eq in Q. rewrite Q.
+    unfold fast_cdf. destruct (Qltb u 0) eqn:E0.
+    + apply Qltb_true in E0. pose proof (QN_nonneg (N1 * N2)). lra.
+    + apply Qleb_true in H. rewrite H. reflexivity.
 Qed.
 End Point.
 
@@ -244,12 +272,14 @@ Theorem u_ok_tied_uniform {X} (cmp : X -> X -> comparison) z N1 N2 tnil T u p oc
   Qabs (p - inject_Z (count_eq cmp z N1 (Qfloor (2 * u))) / inject_Z (C (N1 + N2) N1)) <= tol_prob.
 Proof.
   intros HV HG HT (p' & c & Ep & _ & In & Out & _). injection Ep as <-.
+  assert (Z0 : forall q, q == 0 -> Qabs (q - 0) <= tol_prob).
+  { intros q E. rewrite E. apply tol_prob_nonneg. }
   pose proof (pool_length cmp z N1 N2 tnil T HV HG) as HL.
   unfold twoU_of in In. rewrite HT in In.
   destruct (Qlt_le_dec u 0) as [L|L].
   { rewrite (count_eq_zero_outside cmp z N1 N2 _ HL) by (left; apply Qfloor_neg; exact L).
-    rewrite <- qdiv0. assert (E : p - 0 == p) by ring. rewrite E. apply Out. left. exact L. }
+    rewrite <- qdiv0. apply Z0. apply Out. left. exact L. }
   destruct (Qlt_le_dec u ((1 # 2) + QN (N1 * N2))) as [L2|L2]; [apply In; split; assumption|].
   rewrite (count_eq_zero_outside cmp z N1 N2 _ HL) by (right; pose proof (twoU_of_above_tied (N1 * N2) u L2); lia).
-  rewrite <- qdiv0. assert (E : p - 0 == p) by ring. rewrite E. apply Out. right. exact L2.
+  rewrite <- qdiv0. apply Z0. apply Out. right. exact L2.
 Qed.
